@@ -176,6 +176,10 @@ func (g *ribGen) entry(o *drv.OpSpec) {
 }
 
 func (g *ribGen) step() RStep {
+	if g.r.Chance(1, 50) {
+		// the configuration is applied again: a network instance that exists already (refused, nothing changes)
+		return RStep{K: "addni", NI: drv.Pick(g.r, 1, 2, 3)}
+	}
 	switch x := g.r.Intn(100); {
 	case x < 3:
 		if g.r.Chance(1, 2) {
